@@ -60,7 +60,7 @@ func (ci *caseImporter) Import(path string) (*types.Package, error) {
 // stdlib package (extract.go "restricted" map, stdlib/restricted.go).
 var restrictedSyms = map[string]map[string]bool{
 	"os":  {"Exit": true, "FindProcess": true},
-	"log": {"Fatal": true, "Fatalf": true, "Fatalln": true, "Logger": true, "New": true},
+	"log": {"Fatal": true, "Fatalf": true, "Fatalln": true, "Logger": true, "New": true, "Default": true},
 }
 
 func stubSource(dest, std string) string {
@@ -77,7 +77,7 @@ func stubSource(dest, std string) string {
 	case "os":
 		b.WriteString("\nvar osExit = os.Exit\nvar osFindProcess = os.FindProcess\n")
 	case "log":
-		b.WriteString("\nvar logFatal = log.Fatal\nvar logFatalf = log.Fatalf\nvar logFatalln = log.Fatalln\nvar logNew = log.New\n\ntype logLogger = log.Logger\n")
+		b.WriteString("\nvar logFatal = log.Fatal\nvar logFatalf = log.Fatalf\nvar logFatalln = log.Fatalln\nvar logNew = log.New\nvar logDefault = log.Default\n\ntype logLogger = log.Logger\n")
 	}
 	return b.String()
 }
